@@ -28,7 +28,7 @@ NOT_DECIDED = ["set equality with an independent evaluation near the thresholds 
                "periodic minimum-image distances used by the criteria (C05)"]
 ASSUMPTIONS = ["documented criteria: Baker-Hubbard theta > 120 deg and r(H...A) < 0.25 nm in more than freq of the frames; Wernet-Nilsson r(OO) < 0.33 nm - 0.000044 nm/deg^2 * delta^2; "
                "Kabsch-Sander E = 0.42*0.20*332 kcal A/mol * (1/rON + 1/rCH - 1/rOH - 1/rCN) < -0.5 kcal/mol, H at 1.0 A (0.1 nm) from N along the previous C=O"]
-FLOORS = {"C14-R1": 14, "C14-R2": 7, "C14-R3": 12, "C14-R4": 10}
+FLOORS = {"C14-R1": 14, "C14-R2": 7, "C14-R3": 10, "C14-R4": 10}
 
 HB = "mdtraj/geometry/hbond.py"
 GEO = "mdtraj/geometry/src/geometry.cpp"
@@ -45,7 +45,7 @@ def check(ctx):
     _r1(ctx)
     _r2(ctx)
     _r3(ctx)
-    r3_hydrogen_placement(ctx)
+    r3_energy_value(ctx)
     from .c05 import periodic_plumbing
     periodic_plumbing(ctx, "C14-R1", only={"mdtraj/geometry/hbond.py"}, floor=4)
     r4_sentinels(ctx, "C14-R4")
@@ -160,6 +160,12 @@ def _r2(ctx):
     ctx.decide("self_bond_mask = bond_triplets[:, 0] == bond_triplets[:, 2]" in s and "np.logical_not(self_bond_mask)" in s, "C14-R2", fn, HB, "_get_bond_triplets", "donor == acceptor triplets removed", "", "self bonds are not removed")
 
 
+def _unwrap(t):
+    t = re.sub(r"\s", "", t)
+    m = re.match(r"^fvec4\((.*)\)$", t)
+    return m.group(1) if m else t
+
+
 def _literals(node):
     return [n.get("value") for n in C.walk(node) if n["kind"] == "FloatingLiteral"]
 
@@ -171,27 +177,7 @@ def _r3(ctx):
     lits = [abs(float(v)) for v in _literals(da)]
     ctx.decide(sum(1 for v in lits if abs(v - 2.7888) < 1e-6) == 4, "C14-R3", C.line(da), GEO, "ks_donor_acceptor", "coupling 0.42*0.20*332/10 = 2.7888 (x4)", "",
                "coupling literals are %s (documented: 332 * 0.42 * 0.20 kcal A/mol = 2.7888 kcal nm/mol)" % sorted(set(lits)))
-    signs = [float(v) for v in _literals(da) if abs(abs(float(v)) - 2.7888) < 1e-6]
-    # order of distances packed: d(HO), d(NC), d(HC), d(NO) with signs -,-,+,+
-    pack = [n for n in C.walk(da) if n["kind"] == "VarDecl" and n.get("name") == "d2_honchcno"]
-    ptxt = C.text(C.kids(pack[0])[-1]) if pack else ""
-    order_ok = re.sub(r"\s", "", ptxt).startswith("fvec4(dot3(r_ho,r_ho),dot3(r_nc,r_nc),dot3(r_hc,r_hc),dot3(r_no,r_no)")
-    neg = [n for n in C.walk(da) if n["kind"] == "VarDecl" and n.get("name") == "coupling"]
-    ctxt = re.sub(r"\s", "", C.text(C.kids(neg[0])[-1])) if neg else ""
-    sign_ok = ctxt.startswith("fvec4((-2.7888),(-2.7888),2.7888,2.7888") or ctxt.startswith("fvec4(-2.7888,-2.7888,2.7888,2.7888")
-    ctx.decide(order_ok and sign_ok, "C14-R3", C.line(da), GEO, "ks_donor_acceptor", "E = q (1/rNO + 1/rHC - 1/rHO - 1/rNC)", "",
-               "the pairing of signs and distances changed: coupling %s, distances %s" % (ctxt[:60], ptxt[:80]))
-    def _unwrap(t):
-        t = re.sub(r"\s", "", t)
-        m = re.match(r"^fvec4\((.*)\)$", t)
-        return m.group(1) if m else t
-    vecs = {n.get("name"): _unwrap(C.text(C.kids(n)[-1])) for n in C.walk(da) if n["kind"] == "VarDecl" and n.get("name", "").startswith("r_") and len(n.get("name")) == 4}
-    want = {"r_ho": "(r_h-r_o)", "r_hc": "(r_h-r_c)", "r_nc": "(r_n-r_c)", "r_no": "(r_n-r_o)"}
-    ctx.decide(all(vecs.get(k) == v for k, v in want.items()), "C14-R3", C.line(da), GEO, "ks_donor_acceptor", "difference vectors HO, HC, NC, NO", "", "difference vectors are %s" % vecs)
-    atoms = {n.get("name"): re.sub(r"\s", "", C.text(C.kids(n)[-1])) for n in C.walk(da) if n["kind"] == "VarDecl" and n.get("name") in ("r_n", "r_h", "r_c", "r_o")}
-    ok = "nco_indices[(3*donor)]" in atoms.get("r_n", "") and "hcoords[(4*donor)]" in atoms.get("r_h", "") and "nco_indices[((3*acceptor)+1)]" in atoms.get("r_c", "") \
-        and "nco_indices[((3*acceptor)+2)]" in atoms.get("r_o", "")
-    ctx.decide(ok, "C14-R3", C.line(da), GEO, "ks_donor_acceptor", "N,H of the donor; C,O of the acceptor", "", "atom selection changed: %s" % {k: v[:40] for k, v in atoms.items()})
+    # pairing of signs, distances and atoms: decided by value numbering in r3_energy_value (the text comparison that stood here fired on a consistent permutation of the four terms)
     ctx.decide(any(abs(v - 9.9) < 1e-6 for v in lits), "C14-R3", C.line(da), GEO, "ks_donor_acceptor", "energy floor -9.9", "", "energy floor literal missing")
     ks = cf.function(GEO, "kabsch_sander")
     kl = {n.get("name"): [float(v) for v in _literals(n)] for n in C.walk(ks) if n["kind"] == "VarDecl" and n.get("name") in ("HBOND_ENERGY_CUTOFF", "MINIMAL_CA_DISTANCE2")}
@@ -213,12 +199,7 @@ def _r3(ctx):
     dcalls = [n for n in C.walk(ks) if n["kind"] == "CallExpr" and C.callee_name(n) == "ks_donor_acceptor"]
     pairs = sorted((C.text(C.call_args(n)[3]), C.text(C.call_args(n)[4])) for n in dcalls)
     ctx.decide(pairs == [("ri", "rj"), ("rj", "ri")], "C14-R3", C.line(ks), GEO, "kabsch_sander", "energies computed for (ri,rj) and (rj,ri)", "", "donor/acceptor pairs evaluated: %s" % pairs)
-    hyd = cf.function(GEO, "ks_assign_hydrogens")
-    hl = [float(v) for v in _literals(hyd)]
-    ctx.decide(any(abs(v - 0.1) < 1e-7 for v in hl), "C14-R3", C.line(hyd), GEO, "ks_assign_hydrogens", "N-H bond length 0.1 nm", "", "hydrogen placement distance literals: %s" % hl)
-    rco = [n for n in C.walk(hyd) if n["kind"] == "VarDecl" and n.get("name") == "r_co"]
-    ok = bool(rco) and _unwrap(C.text(C.kids(rco[0])[-1])) == "(pc-po)"
-    ctx.decide(ok, "C14-R3", C.line(hyd), GEO, "ks_assign_hydrogens", "H placed along O->C of the previous residue", "", "direction vector is %s" % (C.text(C.kids(rco[0])[-1]) if rco else None))
+    r3_hydrogen_value(ctx)
     # store_energies: best two
     se = cf.function(GEO, "store_energies")
     t = re.sub(r"\s", "", " ".join(C.text(n) for n in C.walk(se) if n["kind"] == "IfStmt" for n in [C.kids(n)[0]]))
@@ -348,3 +329,134 @@ def r3_hydrogen_placement(ctx):
                        "the carbonyl-oriented hydrogen is stored under %s" % facts)
     if seen["r_n"] != 1 or seen["r_h"] != 1:
         raise AnalysisError("ks_assign_hydrogens: expected one r_n and one r_h store in the residue loop, found %s" % seen)
+
+
+def r3_energy_value(ctx):
+    """Kabsch-Sander energy as a normal form: E = 2.7888 (1/r_ON + 1/r_CH - 1/r_OH - 1/r_CN) with N,H of the donor and C,O of the acceptor, floored at -9.9."""
+    from ..symval import SymExec, State, Vec, Unsupported
+    from ..poly import Poly, Rat
+    cf = C.get(ctx.repo)
+    fn = cf.function(GEO, "ks_donor_acceptor")
+    ex = SymExec(cf, GEO)
+    try:
+        outs = ex.run(C.kids(C.body_of(fn)), State())
+    except Unsupported as e:
+        ctx.undecided("C14-R3", C.line(fn), GEO, "ks_donor_acceptor", "energy normal form", "not evaluable: %s" % e)
+        return
+    if len(outs) != 1 or outs[0].ret is None:
+        ctx.undecided("C14-R3", C.line(fn), GEO, "ks_donor_acceptor", "energy normal form", "%d paths" % len(outs))
+        return
+    o = outs[0]
+    roles = {}
+    for k, v in o.env.items():
+        if isinstance(v, Vec) and len(v) == 4 and all(hasattr(x, "vars") for x in v):
+            names = sorted(v[0].vars())
+            if len(names) != 1 or v[0].poly() is None or v[0].poly().degree() != 1:
+                continue
+            t = names[0].replace(" ", "")
+            if t.startswith("hcoords[") and "donor" in t:
+                roles["H"] = v
+            elif "nco_indices[3*donor]" in t:
+                roles["N"] = v
+            elif "nco_indices[1+3*acceptor]" in t:
+                roles["C"] = v
+            elif "nco_indices[2+3*acceptor]" in t:
+                roles["O"] = v
+    if sorted(roles) != ["C", "H", "N", "O"]:
+        ctx.violated("C14-R3", C.line(fn), GEO, "ks_donor_acceptor", "N, H of the donor and C, O of the acceptor are loaded", "atoms loaded: %s" % sorted(roles))
+        return
+
+    def inv_dist(a, b):
+        d = [roles[a][i] - roles[b][i] for i in range(3)]
+        return Rat(Poly.const(1)) / ex.opaque_call("sqrt", [d[0] * d[0] + d[1] * d[1] + d[2] * d[2]])
+    from fractions import Fraction
+    q = Rat(Poly.const(Fraction("2.7888")))
+    want = q * (inv_dist("N", "O") + inv_dist("H", "C") - inv_dist("H", "O") - inv_dist("N", "C"))
+    ret = o.ret
+    conds = [v for v in ret.vars() if v.startswith("(") and "<" in v]
+    ok = False
+    why = "returned value has %d comparison symbols" % len(conds)
+    if len(conds) == 1:
+        zero, one = {conds[0]: Poly.const(0)}, {conds[0]: Poly.const(1)}
+        e0 = Rat(ret.n.subs(zero), ret.d.subs(zero))
+        floor = Rat(ret.n.subs(one), ret.d.subs(one))
+        fv = None
+        if not floor.d.is_zero():
+            # floor = const * d / d : compare numerator with constant multiple of the denominator
+            ratios = {float(c) / float(floor.d.t[m]) for m, c in floor.n.t.items() if m in floor.d.t}
+            if set(floor.n.t) == set(floor.d.t) and len({round(r, 9) for r in ratios}) == 1:
+                fv = ratios.pop()
+        # float literals: compare E with a tolerance on the coupling constant by checking the normal forms with the literal as written
+        ok_e = _close_forms(e0, want)
+        ok = ok_e and fv is not None and abs(float(fv) + 9.9) < 1e-6
+        why = "energy normal form %s the Kabsch-Sander expression; floor %s" % ("equals" if ok_e else "differs from", fv)
+    ctx.decide(ok, "C14-R3", C.line(fn), GEO, "ks_donor_acceptor", "E = 2.7888 (1/r_NO + 1/r_HC - 1/r_HO - 1/r_NC), floored at -9.9 (value numbering)", "",
+               "the energy returned is not the Kabsch-Sander electrostatic energy of the N-H / C=O pair: %s" % why)
+
+
+def _close_forms(a, b, tol=1e-5):
+    """a == b as rational functions up to rounding of float literals: same monomials, coefficients within tol (relative)."""
+    x = (a.n * b.d)
+    y = (b.n * a.d)
+    if set(x.t) != set(y.t):
+        return False
+    for m, c in x.t.items():
+        c2 = y.t[m]
+        if abs(float(c) - float(c2)) > tol * max(1.0, abs(float(c2))):
+            return False
+    return True
+
+
+def r3_hydrogen_value(ctx):
+    """Value numbering of the residue loop of ks_assign_hydrogens: H = N + 0.1 (C' - O')/|C' - O'| with C', O' of the previous residue, or H = N when they are missing; nothing is stored for a skipped residue."""
+    from ..symval import SymExec, State, Ptr, Vec, Unsupported
+    from ..poly import Poly, Rat
+    cf = C.get(ctx.repo)
+    fn = cf.function(GEO, "ks_assign_hydrogens")
+    loops = [n for n in C.walk(fn) if n["kind"] == "ForStmt"]
+    if not loops:
+        raise AnalysisError("ks_assign_hydrogens: residue loop not found")
+    lb = [x for x in loops[0]["inner"] if isinstance(x, dict) and x.get("kind") == "CompoundStmt"][0]
+    ex = SymExec(cf, GEO)
+    st = State()
+    st.env["ri"] = Rat(Poly.var("ri"))
+    st.env["hcoords"] = Ptr("H", 0)
+    try:
+        outs = ex.run(C.kids(lb), st)
+    except Unsupported as e:
+        ctx.undecided("C14-R3", C.line(fn), GEO, "ks_assign_hydrogens", "hydrogen position normal form", "not evaluable: %s" % e)
+        return
+
+    def X(idx_expr, k):
+        off = ("%d + " % k) if k else ""
+        return Rat(Poly.var("xyz[%s3*nco_indices[%s]]" % (off, idx_expr)))
+    N = [X("3*ri", k) for k in range(3)]
+    Cp = [X("-2 + 3*ri", k) for k in range(3)]
+    Op = [X("-1 + 3*ri", k) for k in range(3)]
+    d = [Cp[k] - Op[k] for k in range(3)]
+    norm = ex.opaque_call("sqrt", [d[0] * d[0] + d[1] * d[1] + d[2] * d[2]])
+    seen = {"on_N": 0, "oriented": 0, "skipped": 0}
+    for o in outs:
+        H = [o.env.get(("H", k)) for k in range(3)]
+        adv = o.env.get("hcoords")
+        ok_adv = isinstance(adv, Ptr) and adv.off == 4
+        conds = dict(o.conds)
+        if all(h is None for h in H):
+            seen["skipped"] += 1
+            ctx.decide(ok_adv and conds.get("(!skip[ri])") is False, "C14-R3", C.line(fn), GEO, "ks_assign_hydrogens", "skipped residue: nothing stored, pointer advances by 4", "", "path %s stores nothing" % o.conds)
+        elif all(H[k] is not None and H[k] == N[k] for k in range(3)):
+            seen["on_N"] += 1
+            cv = [re.sub(r"\s", "", c) for c, p_ in o.cvals if p_ and "<" in c]
+            pc, po = "(nco_indices[-2+3*ri]<0)", "(nco_indices[-1+3*ri]<0)"
+            exact = cv in (["(%s||%s)" % (pc, po)], ["(%s||%s)" % (po, pc)])
+            ctx.decide(ok_adv and exact, "C14-R3", C.line(fn), GEO, "ks_assign_hydrogens", "fallback path H = N is taken exactly when the previous C or O is missing", "",
+                       "the hydrogen is left on the nitrogen under %s: a residue whose predecessor still has its C=O (but lacks another atom) loses the N-H direction and with it its hydrogen bonds" % [c for c, p_ in o.cvals])
+        else:
+            want = [N[k] + Rat(Poly.const(1)) / 10 * d[k] / norm for k in range(3)]
+            ok = all(H[k] is not None and _close_forms(H[k], want[k], tol=1e-6) for k in range(3)) and ok_adv
+            seen["oriented"] += 1
+            neg = [re.sub(r"\s", "", c) for c, p_ in o.cvals if not p_ and "<" in c]
+            ok = ok and len(neg) == 1 and "nco_indices[-2+3*ri]<0" in neg[0] and "nco_indices[-1+3*ri]<0" in neg[0]
+            ctx.decide(ok, "C14-R3", C.line(fn), GEO, "ks_assign_hydrogens", "H = N + 0.1 nm * (C' - O')/|C' - O'| of the previous residue", "",
+                       "the hydrogen position on path %s is %s" % (o.conds, repr(H[0])[:160]))
+    ctx.decide(seen == {"on_N": 1, "oriented": 1, "skipped": 1}, "C14-R3", C.line(fn), GEO, "ks_assign_hydrogens", "three paths: skipped / H on N / H along the previous C=O", "", "paths found: %s" % seen)
